@@ -33,8 +33,9 @@ func runC12(c *Ctx) {
 	c.Rule("C12.C", "channel typestate: no send on / re-close of a closed channel", 3)
 	c.Rule("C12.B", "no endpoint blocks on a peer that may be gone", 4)
 	ruleRecordingDoesNotWait(c, p, "C12.B")
-	c.Rule("C12.N", "possibly-nil messages are nil-checked by the receiving goroutine (= C07.N)", 2)
+	c.Rule("C12.N", "possibly-nil messages are nil-checked by the receiving goroutine (= C07.N); a response returned with a dial error is not dereferenced (= C07.I)", 3)
 	ruleShimNilMessages(c, p, "C12.N")
+	ruleResponseDerefOnErrorPath(c, p, "C12.N", "agent/websockets")
 	c.Rule("C12.A", "every endpoint path answers once, with an allowed status", 15)
 	c.Rule("C12.U", "unknown or closed sessions are rejected with 400 and forgotten; received messages are delivered first", 16)
 	c.Rule("C12.L", "connection lifecycle pairing", 9)
